@@ -59,7 +59,21 @@ pub fn strategy(max_horizon_s: u16) -> impl Strategy<Value = Case> {
         2 => strategy_h(max_horizon_s.max(170), true),
         2 => flapping(max_horizon_s.max(170)),
         1 => total_outage(),
+        1 => refusing_receiver(),
     ]
+}
+
+/// The receiver forgets the group early and refuses every REG2 with REG_ERR for the rest of a 60-90 s run (no other
+/// fault): every link times out, re-opens its socket and is refused again and again - the retry spacing of an
+/// established link under refusal.
+fn refusing_receiver() -> impl Strategy<Value = Case> {
+    (strategy_h(90, false), 80u16..250, 0u8..5).prop_map(|(mut c, at, tsel)| {
+        c.faults.clear();
+        c.forgets = vec![(at, true)];
+        c.timeout = tsel;
+        c.horizon_s = c.horizon_s.max(60);
+        c
+    })
 }
 
 /// Every uplink (also link 0) is black-holed over the same period, long enough for the all-links-failed timer
@@ -249,6 +263,8 @@ struct LinkMon {
     went_down: u32,
     came_back: u32,
     reg_err_since_up: bool,
+    /// the harness's own record that this link completed a registration at least once (a REG3 was delivered to it)
+    ever_established: bool,
 }
 
 pub fn check(case: &Case, obs: &mut Obs, which: Which, ctx: &Ctx) -> CheckResult {
@@ -372,7 +388,9 @@ pub fn check(case: &Case, obs: &mut Obs, which: Which, ctx: &Ctx) -> CheckResult
                         vensure!($is_hk, "reconnect-outside-housekeeping", "{}: link {i} socket replaced outside a housekeeping pass", $what);
                         if let Some(prev) = m.attempts.last() {
                             let gap = now - prev;
-                            let min_gap = if c.connection_established_ms() == 0 { 1000 } else { 5000 };
+                            // "at least 1 s apart during initial registration and at least 5 s apart afterwards":
+                            // afterwards = once a REG3 was delivered to this link (the harness's own record)
+                            let min_gap = if m.ever_established { 5000 } else { 1000 };
                             vensure!(gap >= min_gap, "retry-too-soon", "{}: link {i} reconnect attempts {} ms apart (< {min_gap})", $what, gap);
                         }
                     }
@@ -465,6 +483,7 @@ pub fn check(case: &Case, obs: &mut Obs, which: Which, ctx: &Ctx) -> CheckResult
                             m.down_since = None;
                         }
                         m.established = true;
+                        m.ever_established = true;
                     }
                     Some(rc::T_REG_ERR) => m.reg_err_since_up = true,
                     Some(rc::T_REG2) | Some(rc::T_REG_NGP) => {}
@@ -653,7 +672,8 @@ pub fn check(case: &Case, obs: &mut Obs, which: Which, ctx: &Ctx) -> CheckResult
                     for u in &ungated {
                         let c = &sh.st.conns[*u];
                         let age = c.last_received.map(|lr| tnow.saturating_sub(lr));
-                        let ok = !matches!(c.phase, LinkPhase::Registering) && c.connected && age.is_some_and(|a| a < c.verif_conn_timeout_ms());
+                        // the configured timeout (every link holds it once a decision was taken under it - and one just was)
+                        let ok = !matches!(c.phase, LinkPhase::Registering) && c.connected && age.is_some_and(|a| a < timeout);
                         vensure!(ok, "history-routed-to-ineligible-link", "+{} ms: unique copy queued on link {u}: phase {:?}, connected {}, receive age {:?}, timeout {}", tnow - t0, c.phase, c.connected, age, c.verif_conn_timeout_ms());
                     }
                     vensure!(ungated.len() <= 1, "two-unique-copies", "+{} ms: datagram on non-gated links {:?}", tnow - t0, ungated);
